@@ -4,6 +4,7 @@ from concurrent.futures import ThreadPoolExecutor
 from .. import stages, worker
 from . import common
 
+SITE_KINDS = {"set-construction", "set-display", "set-comprehension", "next-iter"}
 RULE = ("G-json inputs (shared key pools, mergeable nested objects, recursive/shared shapes) x merge policies x frameworks x "
         "layouts; the model gives one answer per case (render stage, byte-for-byte); the falsifier renders every case in "
         "fresh processes under k PYTHONHASHSEED values (quick 4, thorough 16) and compares bytes; non-trivial = at least "
